@@ -226,21 +226,28 @@ Qed.
 
 (* the first type of crate d whose Rust name is n is generated under the name renamed_in gives *)
 Lemma renamed_in_item ws d n : In n (tdefs_original ws d) ->
-  exists it, In it (type_items ws d) /\ renamed (item_id it) = renamed_in ws d n.
+  exists it, In it (type_items ws d) /\ original (item_id it) = n /\ renamed (item_id it) = renamed_in ws d n.
 Proof.
   unfold tdefs_original, renamed_in. intros H. apply in_map_iff in H as (it0 & E0 & H0).
   destruct (find (fun it => str_eqb (original (item_id it)) n) (type_items ws d)) as [it|] eqn:F.
-  - apply find_some in F as [Hin _]. now exists it.
+  - apply find_some in F as [Hin E]. apply str_eqb_eq in E. now exists it.
   - exfalso. pose proof (find_none _ _ F it0 H0) as K. cbn in K. rewrite E0, str_eqb_refl in K. discriminate.
+Qed.
+
+(* ... and under one_generated_name so is every other one *)
+Lemma one_generated_name_item ws d n it : one_generated_name ws d n = true -> In it (type_items ws d) ->
+  original (item_id it) = n -> renamed (item_id it) = renamed_in ws d n.
+Proof.
+  unfold one_generated_name. rewrite forallb_forall. intros H Hit E. specialize (H it Hit). rewrite E, str_eqb_refl in H.
+  cbn [negb orb] in H. now apply str_eqb_eq in H.
 Qed.
 
 (* the domain of the completeness theorem and the finding classes are disjoint *)
 Lemma dom_excludes_known ws mapped s c d n : dom_C14 ws mapped s c d n = true -> known_C14 ws mapped s c d n = None.
 Proof.
-  unfold dom_C14, known_C14. destruct (dom_glob mapped s d); [reflexivity|]. rewrite orb_false_r. unfold dom_named. intros Hd.
+  unfold dom_C14, known_C14. destruct (dom_glob ws mapped s d); [reflexivity|]. rewrite orb_false_r. unfold dom_named. intros Hd.
   apply andb_true_iff in Hd as [Hd _]. apply andb_true_iff in Hd as [Hd _]. apply andb_true_iff in Hd as [Hd _].
-  apply andb_true_iff in Hd as [Hd _]. apply andb_true_iff in Hd as [Hd D4]. apply andb_true_iff in Hd as [Hd D3].
-  rewrite D3, D4. reflexivity.
+  apply andb_true_iff in Hd as [Hd _]. apply andb_true_iff in Hd as [Hd D4]. rewrite D4. reflexivity.
 Qed.
 
 (* ====================================================================================== *)
@@ -289,6 +296,33 @@ Proof.
   apply (parse_file_tn_ok _ _ _ _ _ P). exists it. split; [exact Hit|]. split; [exact Ty|reflexivity].
 Qed.
 
+(* an entry of the run's rename table = a serde-renamed annotated TYPE of a source file of that crate *)
+Lemma multi_rn_items n d r :
+  In (n, d, r) (multi_rn ho_crate arrivals) <-> exists it, In it (type_items infos d) /\ renames_item it n r.
+Proof.
+  unfold multi_rn. rewrite serde_renames_in. unfold type_items, infos. split.
+  - intros (pd & it & Hc & Hit & R). unfold order_imports in Hc. apply in_map_iff in Hc as ([k p] & E & Hc). cbn [fst snd] in E.
+    injection E as -> <-. rewrite items_of_with_imports in Hit.
+    apply in_crates_get in Hc; [|apply collect_nodup]. rewrite collect_get in Hc.
+    destruct (of_crate d arrivals) as [|q qs] eqn:F; [discriminate|]. injection Hc as <-.
+    exists it. split; [|exact R]. apply filter_In. split; [|apply R].
+    rewrite (crate_items_arrivals uc T ign ho_file d ws arrivals HW), F.
+    eapply Permutation_in; [apply items_single_perm|exact Hit].
+  - intros (it & Hit & R). apply filter_In in Hit as [Hit _].
+    rewrite (crate_items_arrivals uc T ign ho_file d ws arrivals HW) in Hit.
+    pose proof (collect_get arrivals d) as G. destruct (of_crate d arrivals) as [|q qs] eqn:F; [destruct Hit|].
+    apply crates_get_in in G. eexists. exists it. split; [|split; [|exact R]].
+    + unfold order_imports. apply in_map_iff. eexists (d, _). split; [reflexivity|exact G].
+    + rewrite items_of_with_imports. eapply Permutation_in; [apply Permutation_sym, items_single_perm|exact Hit].
+Qed.
+
+(* an annotated item that is not serde-renamed is generated under its Rust name *)
+Lemma crate_items_plain d it : In it (crate_items infos d) -> via_serde_rename (item_id it) = false ->
+  renamed (item_id it) = original (item_id it).
+Proof.
+  intros H. apply crate_items_in in H as (e & pd0 & _ & _ & P & Hit). exact (parse_file_ids_ok _ _ _ _ _ P it Hit).
+Qed.
+
 Theorem imports_sound_spec c pd : (forall l x, In x (hc l) -> In x l) ->
   unsound_imports infos c (scoped_pairs (crate_imports hc cs c pd)) = [].
 Proof.
@@ -319,7 +353,7 @@ Proof.
   (* crate d, the generated name g of the target and the type table of d *)
   apply referenced_crate_in in RC. unfold targets in RC. apply filter_In in RC as [_ RC]. apply andb_true_iff in RC as [Hdc Hdo].
   apply negb_true_iff in Hdc. apply str_eqb_neq in Hdc. apply mem_str_in in Hdo.
-  destruct (renamed_in_item infos d n Hdo) as (itd & Hitd & Ern).
+  destruct (renamed_in_item infos d n Hdo) as (itd & Hitd & Eon & Ern).
   destruct (defined_all_types d itd Hitd) as (names & Hnames & Hnn). rewrite Ern in Hnn.
   pose proof (crate_types_get_oracle hc (all_types cs) d names Hhc all_types_nodup Hnames) as G.
   fold infos in Hd |- *. set (g := renamed_in infos d n) in *.
@@ -327,17 +361,20 @@ Proof.
   cbn [si_items si_file c14_info] in *.
   destruct (parse_file uc (we_tstr e) T (we_file e)) as [[pd0|]| |] eqn:P; try destruct Hit.
   destruct (entry_arrival uc T ign ho_file ws arrivals e c pd0 HW He Fe P) as (pdm & pd1 & Harr & -> & C1 & R1 & FC1 & FC2 & FC3).
-  destruct (multi_crates_entry ho_crate arrivals _ _ Hc) as (pds & rn & Epds & _ & ->).
+  destruct (multi_crates_entry_rn ho_crate arrivals _ _ Hc) as (pds & Epds & _ & ->).
+  set (rn := multi_rn ho_crate arrivals).
+  (* an import of the file reaches used_imports under the name its crate generates the type under *)
   assert (Hthrough : forall target, In target (p_imports pdm) ->
-            In target (p_imports (reconcile_crate rn c (with_imports (collect_single pds) (imports_iter ho_crate (collect_single pds)))))).
-  { intros target Hm1. apply entry_imports; [exact Hoc|]. exists pdm. split; [rewrite <- Epds; now apply in_of_crate|exact Hm1]. }
+            In (rename_import rn target)
+               (p_imports (reconcile_crate rn c (with_imports (collect_single pds) (imports_iter ho_crate (collect_single pds)))))).
+  { intros target Hm1. apply entry_imports; [exact Hoc|]. exists pdm, target. split; [rewrite <- Epds; now apply in_of_crate|]. split; [exact Hm1|reflexivity]. }
   apply existsb_exists. exists (d, g). split; [|cbn [fst snd]; now rewrite !str_eqb_refl].
   unfold dom_C14 in Hd. apply orb_true_iff in Hd as [Hd|Hd].
   - (* (a) a named reference *)
     unfold dom_named in Hd.
     apply andb_true_iff in Hd as [Hd D8]. apply andb_true_iff in Hd as [Hd D7]. apply andb_true_iff in Hd as [Hd D6].
     apply andb_true_iff in Hd as [Hd D5]. apply andb_true_iff in Hd as [Hd D4]. apply andb_true_iff in Hd as [Hd D3].
-    apply andb_true_iff in Hd as [D1 D2]. apply str_eqb_eq in D3. apply negb_true_iff in D7, D8.
+    apply andb_true_iff in Hd as [D1 D2]. apply negb_true_iff in D7, D8.
     cbn [si_items si_file c14_info] in D1, D2, D8. rewrite P in D8.
     destruct (crate_ok_accept uc Huc d D5) as (Ad & Aal). destruct (type_ok_accept uc Huc n D6) as (An & Ag).
     set (target := {| base_crate := d; type_name := n |}).
@@ -364,10 +401,25 @@ Proof.
       - change (p_type_names pd1) with (p_type_names (core pd1)). rewrite C1. intros Hl.
         apply (tn_ok_type _ _ (parse_file_tn_ok _ _ _ _ _ P)) in Hl as (it' & Hit' & Er). apply mem_str_notin in D8. apply D8.
         apply in_map_iff. now exists it'. }
-    unfold g. rewrite D3. unfold crate_imports.
-    refine (used_imports_complete _ c _ d n names (Hthrough target Hm1) Hdc G _ Ag). unfold g in Hnn. now rewrite D3 in Hnn.
+    (* reconcile_aliases puts it back as (d, g): the rename table holds for (n, d) the one name d generates n under,
+       or nothing, and then g = n *)
+    assert (Hg : rename_import rn target = {| base_crate := d; type_name := g |}).
+    { unfold rename_import. cbn [type_name base_crate target]. destruct (lookup_rename rn n d) as [r|] eqn:L.
+      - apply lookup_rename_in, multi_rn_items in L as (itr & Hitr & _ & Eo & Er & _).
+        now rewrite <- Er, (one_generated_name_item infos d n itr D3 Hitr Eo).
+      - assert (En : g = n); [|now rewrite En]. rewrite <- Ern, <- Eon. apply (crate_items_plain d itd).
+        + now apply filter_In in Hitd as [Hitd _].
+        + destruct (via_serde_rename (item_id itd)) eqn:V; [|reflexivity]. exfalso.
+          apply (lookup_rename_none rn n d (renamed (item_id itd)) L). apply multi_rn_items. exists itd. split; [exact Hitd|].
+          apply filter_In in Hitd as [_ Ty]. repeat split; assumption. }
+    pose proof (Hthrough target Hm1) as Hin. rewrite Hg in Hin. unfold crate_imports.
+    destruct (str_eqb g GLOB) eqn:EG.
+    + (* a type generated under the name `*` (serde(rename = "*")): the import (d, `*`) brings in every name of d's table, `*` too *)
+      apply str_eqb_eq in EG. rewrite EG in Hin. exact (used_imports_glob_complete _ c _ d g names Hin Hdc G Hnn).
+    + apply str_eqb_neq in EG. exact (used_imports_complete _ c _ d g names Hin Hdc G Hnn EG).
   - (* (b) a reference covered by a glob import of crate d *)
-    unfold dom_glob in Hd. apply andb_true_iff in Hd as [Hd G3]. apply andb_true_iff in Hd as [G1 G2]. apply negb_true_iff in G3.
+    unfold dom_glob in Hd. apply andb_true_iff in Hd as [Hd G4]. apply andb_true_iff in Hd as [Hd G3]. apply andb_true_iff in Hd as [G1 G2].
+    apply negb_true_iff in G3, G4.
     cbn [si_file c14_info] in G1.
     set (target := {| base_crate := d; type_name := GLOB |}).
     assert (Ht : In target (p_imports pd1)).
@@ -376,7 +428,13 @@ Proof.
       - exact (use_tree_glob uc Huc c d x found G2 Hi Hf).
       - unfold not_ignored. cbn [type_name target]. change GLOB with GLOB14. now rewrite G3. }
     assert (Hm1 : In target (p_imports pdm)) by (rewrite R1; now apply rrt_keeps_glob).
-    unfold crate_imports. exact (used_imports_glob_complete _ c _ d g names (Hthrough target Hm1) Hdc G Hnn).
+    (* `*` is the Rust name of no type of d: the glob is put back as it is *)
+    assert (Hg : rename_import rn target = target).
+    { unfold rename_import. cbn [type_name base_crate target]. destruct (lookup_rename rn GLOB d) as [r|] eqn:L; [|reflexivity]. exfalso.
+      apply lookup_rename_in, multi_rn_items in L as (itr & Hitr & _ & Eo & _). apply mem_str_notin in G4. apply G4.
+      unfold tdefs_original. apply in_map_iff. now exists itr. }
+    pose proof (Hthrough target Hm1) as Hin. rewrite Hg in Hin. unfold crate_imports.
+    exact (used_imports_glob_complete _ c _ d g names Hin Hdc G Hnn).
 Qed.
 
 (* the verdict of the specification on the import list of every generated file *)
